@@ -13,6 +13,11 @@ def main():
         env = dict(os.environ, PYTHONHASHSEED="0")
         os.execve(sys.executable, [sys.executable, "-m", "mc.run"] + sys.argv[1:], env)
     sys.dont_write_bytecode = True
+    repo = os.environ.get("MC_REPO")
+    if repo:
+        # run against another checkout (seeded-defect worktrees): its sources must win over the installed package
+        sys.path.insert(0, os.path.join(repo, "src"))
+        os.environ["PYTHONPATH"] = os.path.join(repo, "src")
     tier = a.tier if a.tier in ("quick", "thorough") else "quick"
     try:
         seed = int(os.environ.get("VERIF_SEED", "0") or 0)
